@@ -21,6 +21,7 @@ EXPLANATION = (
     "handlers[trace_codes[first.eventid]](parser, events)."
 )
 
+SELF = param("self")
 TC = "pykdebugparser.trace_codes"
 
 
@@ -249,23 +250,30 @@ def analyse_indirection(repo: Repo, run: Run, interp) -> None:
     pk = repo.cls("pykdebugparser", "PyKdebugParser")
     for m, callee in (("formatted_traces", "traces"), ("callstacks", "traces"), ("formatted_callstacks", "callstacks")):
         fnode = repo.method("pykdebugparser", "PyKdebugParser", m)
-        names = [a.arg for a in fnode.args.args]
-        if "trace_codes" not in names:
+        cfn = repo.method("pykdebugparser", "PyKdebugParser", callee)
+        cparams = [a.arg for a in cfn.args.args if a.arg != "self"]
+        params = [a.arg for a in fnode.args.args if a.arg != "self"]
+        # the table parameter is the one after the stream (second free parameter) in both signatures
+        if len(params) < 2 or len(cparams) < 2:
             run.ob("R2", pk.module.name, f"PyKdebugParser.{m}", "forwards the caller's table", False,
-                   f"{m} no longer takes a trace_codes parameter", line=fnode.lineno)
+                   f"{m} / {callee} no longer take (stream, table)", line=fnode.lineno)
             continue
+        rec_m = interp.run(pk.module, fnode, self_cls=pk)
         okf = False
-        for n_ in ast.walk(fnode):
-            if isinstance(n_, ast.Call) and isinstance(n_.func, ast.Attribute) and n_.func.attr == callee:
-                args = [ast.unparse(a) for a in n_.args] + [f"{k.arg}={ast.unparse(k.value)}" for k in n_.keywords]
-                okf = (len(n_.args) >= 2 and ast.unparse(n_.args[1]) == "trace_codes") or "trace_codes=trace_codes" in args
+        for c in rec_m.calls:
+            if c.func == T("attr", (SELF, callee)) and c.where.split(".")[-1] == m:
+                given = dict(c.kwargs).get(cparams[1])
+                if given is None and len(c.args) >= 2:
+                    given = c.args[1]
+                okf = given == param(params[1])
         run.ob("R2", pk.module.name, f"PyKdebugParser.{m}", "forwards the caller's table", okf,
-               f"{m} does not pass its trace_codes argument on to {callee}()", nontrivial=False, line=fnode.lineno)
+               f"{m} does not pass its table argument ({params[1]}) on to {callee}()", nontrivial=False, line=fnode.lineno)
 
 
 def analyse_absent(repo: Repo, run: Run, interp) -> None:
     pk = repo.cls("pykdebugparser", "PyKdebugParser")
-    fk = repo.method("pykdebugparser", "PyKdebugParser", "_format_kevent")
+    from .. import pipeline
+    fk = repo.method("pykdebugparser", "PyKdebugParser", pipeline.line_builder(repo, interp, "formatted_kevents", "_format_kevent"))
     rec = interp.run(pk.module, fk, self_cls=pk)
     ev, table = param(fk.args.args[1].arg), param(fk.args.args[2].arg)
     eid = T("attr", (ev, "eventid"))
